@@ -220,6 +220,11 @@ func main() {
 		}
 		defer os.RemoveAll(tmp)
 		dbt.TTLScenarios(mk, flush, tmp)
+		nr := 6
+		if len(os.Args) > 4 {
+			nr, _ = strconv.Atoi(os.Args[4])
+		}
+		dbt.RandomTTL(mk, flush, nr)
 		e := mk()
 		dbt.BackgroundExpiry(e, nil)
 		flush(e)
